@@ -6,6 +6,8 @@ T13-ORD    the font-supplied clamp bounds in default_normalize are ordered befor
 T13-DIV    Fixed / F2Dot14 division guards a zero divisor (rule C01-d on src/tables.rs)
 T13-PRIV   a Tuple/OwnedTuple cannot be forged at the wrong length by safe code (field privacy)
 """
+import re
+
 import arith
 import guards
 import reach
@@ -264,7 +266,39 @@ def t13_priv(run, fx):
         run.anchor_missing(rule, "OwnedTuple literals")
 
 
+def t13_dom(run, fx):
+    rule = "T13-DOM"
+    run.rule(rule, "the interpolation arithmetic of default_normalize and avar SegmentMap::normalize is carried out in 16.16 Fixed: every "
+                   "Add/Sub/Mul/Div/Neg operator call in them resolves to the tables::Fixed implementation (2.14 operands are widened first)")
+    for path in (DEFAULT_NORMALIZE, "tables::variable_fonts::avar::SegmentMap::<'_>::normalize"):
+        b = fx.body(path)
+        if b is None:
+            run.anchor_missing(rule, path)
+            continue
+        n = 0
+        bad = []
+        for bi, t in b.calls():
+            p = t["callee"].get("path") or ""
+            if re.match(r"^std::ops::(Add|Sub|Mul|Div|Neg)::", p):
+                n += 1
+                rp = t["callee"].get("rpath") or ""
+                if not rp.startswith("<tables::Fixed as std::ops::"):
+                    bad.append(rp or p)
+        for bi, blk in enumerate(b.blocks):
+            for s_ in blk["s"]:
+                if s_["k"] == "assign" and s_["rv"]["k"] == "bin" and s_["rv"]["bop"].replace("WithOverflow", "") in ("Add", "Sub", "Mul", "Div") and s_["rv"].get("aty") in ("i16", "u16", "i32"):
+                    bad.append("raw %s on %s" % (s_["rv"]["bop"], s_["rv"].get("aty")))
+        if bad:
+            run.fail(rule, "domain:%s" % path.split("::")[-1], "%s does arithmetic outside Fixed: %s" % (path, sorted(set(bad))), "%s:%s" % (b.file, b.line))
+        elif n == 0:
+            run.anchor_missing(rule, "arithmetic in %s" % path)
+        else:
+            run.ok(rule, "%s: %d operator call(s), all on Fixed" % (path.split("::")[-1], n))
+
+
 def check(run, fx, tier, floors=True):
+    if floors or fx.body("tables::variable_fonts::avar::SegmentMap::<'_>::normalize") is not None:
+        t13_dom(run, fx)
     t13_len(run, fx)
     t13_clamp(run, fx)
     t13_ord(run, fx)
